@@ -58,6 +58,7 @@ func New() *Store { return &Store{keys: map[string]*keyState{}} }
 type Err struct {
 	Class    string // locked conflict exists txn-lock-not-found abort already-committed self-rolled-back commit-ts-expired txn-not-found assertion other
 	Key      []byte
+	StartTS  uint64 // the requesting transaction (conflict) / the attempted commit ts (commit-ts-expired)
 	LockTS   uint64 // locked: owner; conflict: conflicting start ts
 	CommitTS uint64 // already-committed / conflict commit ts / min commit ts
 	Lock     *Lock
@@ -281,7 +282,7 @@ func (k *keyState) checkNewer(key []byte, startTS, ts uint64) *Err {
 		}
 	}
 	if w, ok := k.newestWrite(); ok && w.CommitTS > ts {
-		conf = &Err{Class: "conflict", Key: key, LockTS: w.StartTS, CommitTS: w.CommitTS}
+		conf = &Err{Class: "conflict", Key: key, StartTS: startTS, LockTS: w.StartTS, CommitTS: w.CommitTS}
 	}
 	switch {
 	case self != nil && conf != nil:
@@ -836,4 +837,92 @@ func (s *Store) Dump(key []byte) KeyDump {
 		d.Lock = &cp
 	}
 	return d
+}
+
+// CheckSecondaryLocks is the async-commit recovery probe: for every key, the
+// transaction's lock if it is still there; otherwise its commit ts, or 0 after
+// making sure it can never be prewritten (rollback marker).
+func (s *Store) CheckSecondaryLocks(keys [][]byte, startTS uint64) ([]LockInfo, uint64) {
+	var locks []LockInfo
+	for _, key := range keys {
+		k := s.peek(key)
+		if l := k.lock; l != nil && l.StartTS == startTS {
+			if l.Op == kvrpcpb.Op_PessimisticLock {
+				// a pessimistic lock means the prewrite never arrived: roll it back
+				s.ks(key).lock = nil
+				s.rollbackLock(key, startTS)
+				return nil, 0
+			}
+			locks = append(locks, LockInfo{Key: key, Lock: *l})
+			continue
+		}
+		if w, ok := k.recordOf(startTS); ok && w.Kind != kvrpcpb.Op_Rollback {
+			return nil, w.CommitTS
+		}
+		s.rollbackLock(key, startTS)
+		return nil, 0
+	}
+	return locks, 0
+}
+
+// Flush is the pipelined-transaction prewrite: optimistic locks carrying a generation; an own
+// lock is only overwritten by a higher generation.
+func (s *Store) Flush(muts []*kvrpcpb.Mutation, startTS uint64, primary []byte, minCommitTS, generation, ttl uint64) map[string]*Err {
+	errs := map[string]*Err{}
+	type pend struct {
+		key  []byte
+		lock *Lock
+	}
+	var pending []pend
+	for _, m := range muts {
+		k := s.peek(m.Key)
+		if l := k.lock; l != nil {
+			if l.StartTS != startTS {
+				errs[string(m.Key)] = lockedErr(m.Key, l)
+				continue
+			}
+			if l.Generation >= generation {
+				continue // a repeated or older flush
+			}
+		} else if e := k.checkNewer(m.Key, startTS, startTS); e != nil {
+			errs[string(m.Key)] = e
+			continue
+		}
+		if m.Op == kvrpcpb.Op_CheckNotExists {
+			continue
+		}
+		op := m.Op
+		if op == kvrpcpb.Op_Insert {
+			if _, ok := k.latestValue(); ok && k.lock == nil {
+				errs[string(m.Key)] = &Err{Class: "exists", Key: m.Key}
+				continue
+			}
+			op = kvrpcpb.Op_Put
+		}
+		pending = append(pending, pend{m.Key, &Lock{StartTS: startTS, Primary: primary, Op: op, Value: m.Value, TTL: ttl, MinCommitTS: minCommitTS, Generation: generation, TxnSize: uint64(len(muts))}})
+	}
+	if len(errs) > 0 {
+		return errs
+	}
+	for _, p := range pending {
+		s.ks(p.key).lock = p.lock
+	}
+	return nil
+}
+
+// BufferBatchGet returns what the transaction itself flushed (its own locks): a Put lock
+// gives its value, a Delete lock gives an empty value, no own lock gives nothing.
+func (s *Store) BufferBatchGet(keys [][]byte, startTS uint64) []Pair {
+	var out []Pair
+	for _, key := range keys {
+		if l := s.peek(key).lock; l != nil && l.StartTS == startTS {
+			switch l.Op {
+			case kvrpcpb.Op_Put:
+				out = append(out, Pair{Key: key, Value: l.Value})
+			case kvrpcpb.Op_Del:
+				out = append(out, Pair{Key: key, Value: []byte{}})
+			}
+		}
+	}
+	return out
 }
